@@ -584,6 +584,23 @@ def run_case(ctx, case):
                 if s2 is None or cond2 is None or cond2 > 1e4:
                     ctx.discard("lower-point-in-ill-conditioned-valley")
                     return nontrivial
+            if best < c0 - tol and not on_limit:
+                # explain-check: "local minimum" is a statement about a neighbourhood of the optimum, the probes reach out to one sigma.
+                # If the cost first RISES on the way to the lower point (a barrier) and a descent with a tiny simplex (0.01 sigma)
+                # started at the optimum stays there, the optimum is a genuine local minimum and the lower point belongs to a
+                # neighbouring basin (seen on an unbinned two-Gaussian mixture: barrier 0.003, second minimum 0.4 sigma away, 1.2 deeper;
+                # MINUIT: valid minimum, EDM 1e-5)
+                try:
+                    line = [cost(p + t * (best_p - p)) for t in np.linspace(0.0, 1.0, 81)]
+                    first_below = next((k for k, v in enumerate(line) if v < c0 - tol), len(line))
+                    barrier = max(line[: max(first_below, 1)]) - c0
+                    loc = optimize.minimize(h, p[free_idx], method="Nelder-Mead", options={"xatol": 1e-9, "fatol": 1e-10, "maxiter": 3000, "initial_simplex": simplex(p[free_idx], np.where(sig_full[free_idx] > 0, sig_full[free_idx] * 0.01, 1e-5))})
+                    stays = bool(np.all(np.abs(loc.x - p[free_idx]) <= 0.05 * np.where(sig_full[free_idx] > 0, sig_full[free_idx], 1.0))) and loc.fun >= c0 - tol
+                    if barrier > 1e-9 * (1.0 + abs(c0)) and stays:
+                        ctx.discard("lower-point-in-a-neighbouring-basin-behind-a-barrier")
+                        return nontrivial
+                except Exception:
+                    pass
             ctx.check(
                 "local-minimum",
                 best >= c0 - tol,
